@@ -17,7 +17,8 @@ from . import dri
 
 
 def rep():
-    return dri.Rep({"family": "vars"}, B.vars_battery(), B.vars_judge)
+    from .refmodel import with_reference
+    return with_reference(dri.Rep({"family": "vars"}, B.vars_battery(), B.vars_judge), ("control",), show_vars=True)
 
 
 @obligation("C18/vars-is-flatten", desc="DataRowIterator::vars -> EvalContext::vars -> FramedMap::flatten of the visible "
